@@ -120,6 +120,24 @@ package openapi
 //@   attr trusted
 //@   modifies nothing
 //@   ensures imp(result1 == nil, 0 <= result0.off)
+// every property of the object becomes one parameterInfo - none is skipped, whatever its name (C17-7 dropped "accept",
+// "content-type" and "authorization", also when they are {parameters} of a path)
+//@ extern (github.com/jsightapi/jsight-schema-core/openapi.ObjectInformer).PropertiesInfos(i)
+//@   attr pure deterministic nopanic
+//@   ensures 0 <= result.off
+//@ extern (github.com/jsightapi/jsight-schema-core/openapi.PropertyInformer).Key(i)
+//@   attr pure deterministic nopanic
+//@ extern (github.com/jsightapi/jsight-schema-core/openapi.PropertyInformer).Optional(i)
+//@   attr pure deterministic nopanic
+//@ extern (github.com/jsightapi/jsight-schema-core/openapi.PropertyInformer).Annotation(i)
+//@   attr pure deterministic nopanic
+//@ func schemaObjectInfoToParams(si)
+//@   property C17
+//@   attr assumesafe
+//@   modifies nothing
+//@   ensures 0 <= result.off
+//@ func schemaObjectInfoToParams loop 1
+//@   invariant[C17,@one-parameter-info-per-property] len(r) == rangeindex + 1 && fresh(r.arr) && 0 <= r.off
 //@ func newParameterObject(in, name, description, required, so)
 //@   attr trusted
 //@   modifies nothing
